@@ -35,6 +35,9 @@ type C02Scenario struct {
 	// to a rewrite candidate). Only the optimised-versus-unoptimised oracles
 	// apply to it; no reference model is involved.
 	Raw    string `json:"raw,omitempty"`
+	// StaleOption (map environments): members of the sample map change type after
+	// expr.Env(sample) was called and before Compile.
+	StaleOption bool `json:"stale_option,omitempty"`
 	Source string `json:"source_text,omitempty"`
 }
 
@@ -102,6 +105,11 @@ func (c02Engine) Gen(seed uint64, idx int, tier string) interface{} {
 	if r.Chance(1, 4) {
 		sc.Raw = genTypedProbe(r, sc.Env)
 		sc.Source = sc.Raw
+		if sc.Rep == RepMap && r.Chance(1, 3) {
+			sc.StaleOption = true
+			sc.Raw = r.Pick([]string{"A in [1, 2, 3]", "B in 1..3", "A not in [0, 1]", "A == 1", "B in [1, 2]", "K in [1, 2]", "A in 0..9"})
+			sc.Source = sc.Raw
+		}
 		sc.Marks = append(sc.Marks, "Ff", "CL")
 		return sc
 	}
@@ -177,7 +185,7 @@ func genTypedProbe(r *RNG, d *EnvData) string {
 		return fmt.Sprint(i)
 	}
 	in := r.Pick([]string{"in", "not in"})
-	switch r.Intn(17) {
+	switch r.Intn(18) {
 	case 0: // membership in a literal range, boundaries at the operand's value
 		a := near()
 		b := a + r.Range(-1, 3)
@@ -221,6 +229,14 @@ func genTypedProbe(r *RNG, d *EnvData) string {
 		return r.Pick([]string{"1/0.0 == 1/-0.0", "[0.0, -0.0]", "F64/0.0 + F64/-0.0", "[1/0.0, 1/-0.0]", "-0.0 == 0.0", "[-1.5, 1.5, -(1.5)]", "[0.5, .5, 5e-1]"})
 	case 15: // a struct field shadowing an embedded field of another type
 		return fmt.Sprintf("Lvl %s %s", in, r.Pick([]string{"[1, 2, 3]", "1..3", "[0, 1]", "0..0"}))
+	case 16: // negated comparisons (operand possibly nil, NaN), powers of literals, duplicate map keys
+		return r.Pick([]string{
+			"not (On?.V == A)", "not (On?.V != 0)", "not (O?.V == A)", "not (A == O.V)", "not (S in [\"a\"])", "not (A not in [1, 2])",
+			"not (0.0 / 0.0 < 3)", "not (F64 / 0.0 * 0.0 >= 1)", "not (F64 < 1)", "not (A <= B)",
+			"2 ** 63", "10 ** 19 > 0", "3 ** 41", "2 ** 10", "[1, 2][10 ** 19 > 0 ? 0 : 1]", "(-2) ** 63",
+			"{\"a\": 1, \"a\": 2}.a", "{\"a\": 1, \"b\": 5, \"a\": 1 + 1}", "{\"k\": A, \"k\": B}.k", "len({\"a\": 1, \"a\": 2})",
+			"len(-5000000000000000000..5000000000000000000)", "A in -5000000000000000000..5000000000000000000", "len(1..9223372036854775807)",
+		})
 	case 10: // a ConstExpr function returning a named integer type through interface{}
 		return fmt.Sprintf("CL(%d) %s", r.Range(0, 3), r.Pick([]string{"== 1", "== 0", "in 0..2", "in [0, 1]", "not in 1..3", "!= 2"}))
 	default: // ConstExpr float function with folded arguments under a comparison
@@ -236,7 +252,7 @@ func hasHugeLiteralRange(src string) bool {
 		var a, b int
 		fmt.Sscan(m[1], &a)
 		fmt.Sscan(m[2], &b)
-		if b-a+1 >= 100000 {
+		if b >= a && uint64(b)-uint64(a) >= 99999 {
 			return true
 		}
 	}
@@ -284,7 +300,15 @@ func (c02Engine) Run(sci interface{}, ctx *RunCtx) *Finding {
 		w := NewWorld(false, nil, sc.Poison)
 		w.Phase = "compile"
 		sample := BuildEnv(w, sc.Env).AsRep(sc.Rep)
-		opts := []expr.Option{expr.Env(sample)}
+		envOpt := expr.Env(sample)
+		if m, ok := sample.(map[string]interface{}); ok && sc.StaleOption {
+			// the map changes after the option value was created: what a compilation
+			// knows about the members must be what they are when it compiles
+			m["A"] = int64(sc.Env.A)
+			m["B"] = float64(sc.Env.B) + 0.5
+			m["K"] = "k"
+		}
+		opts := []expr.Option{envOpt}
 		if !optimize {
 			opts = append(opts, expr.Optimize(false))
 		}
@@ -367,6 +391,12 @@ func (c02Engine) Run(sci interface{}, ctx *RunCtx) *Finding {
 	run := func(p c02Prog) (Outcome, *World) {
 		w := NewWorld(sc.Stateful, nil, sc.Poison)
 		envv := BuildEnv(w, sc.Env).AsRep(sc.Rep)
+		if m, ok := envv.(map[string]interface{}); ok && sc.StaleOption {
+			// the environment the program runs on has the members as they were when it was compiled
+			m["A"] = int64(sc.Env.A)
+			m["B"] = float64(sc.Env.B) + 0.5
+			m["K"] = "k"
+		}
 		beginRun(-1, 0)
 		out := sutRun(nil, p.prog, envv)
 		ctx.Eval()
